@@ -128,6 +128,20 @@ def make_main(prog, *, emitter_fault=None, on_ready=None):
                     do_call(re["call"], f"handler{self.hid}")
 
         handlers = [H(i, spec) for i, spec in enumerate(prog["handlers"])]
+        obs2 = None
+        if prog.get("second_observer"):
+            # another observer of the same process, watching the same paths with an idle emitter and a handler of its
+            # own (id = number of the program's handlers): nothing of the first observer's stream may show up there
+
+            class Idle(api.EventEmitter):
+                def queue_events(self, timeout):
+                    self.stopped_event.wait(timeout)
+
+            obs2 = api.BaseObserver(Idle, timeout=1.0)
+            h2 = H(len(prog["handlers"]), {})
+            for p in prog["paths"]:
+                obs2.schedule(h2, p, recursive=False)
+            obs2.start()
         for form in prog["initial"]:
             do_call(form, "main")
         do_call(["start"], "main")
@@ -151,6 +165,9 @@ def make_main(prog, *, emitter_fault=None, on_ready=None):
             do_call(form, "main")
         do_call(["stop"], "main")
         do_call(["join"], "main")
+        if obs2 is not None:
+            obs2.stop()
+            obs2.join()
         s.record("joined", [t.name for t in th.enumerate()])
         return obs
 
@@ -299,6 +316,8 @@ def programs(draw, *, removal_heavy=False, max_threads=2, slow_passes=False):
         initial.append(["schedule", draw(st.integers(0, nh - 1)), draw(st.integers(0, npaths - 1))])
     threads = [draw(st.lists(calls, min_size=1, max_size=3)) for _ in range(draw(st.integers(0, max_threads)))]
     prog = {"paths": paths, "scripts": scripts, "handlers": handlers, "initial": initial, "threads": threads}
+    if draw(st.integers(0, 3)) == 0:
+        prog["second_observer"] = True
     if slow_passes and draw(st.integers(0, 2)) == 0:
         p = draw(st.sampled_from(paths))
         prog["slow"] = {p: {str(draw(st.integers(0, len(scripts[p]) - 1))): draw(st.sampled_from([1.5, 2.5, 4.0]))}}
